@@ -22,9 +22,13 @@ package common
 //@   panics when len(tx.Outputs) >= SliceCountLimit
 //@   modifies tx.Outputs, tx.Outputs[..cap]
 //@   ensures [appended] len(tx.Outputs) == old(len(tx.Outputs)) + 1 &&
-//@       (forall k int :: 0 <= k && k < old(len(tx.Outputs)) ==> tx.Outputs[k] == old(tx.Outputs[k]))
+//@       (forall k int :: {tx.Outputs[k]} {old(tx.Outputs[k])} 0 <= k && k < old(len(tx.Outputs)) ==> tx.Outputs[k] == old(tx.Outputs[k]))
 //@   ensures [block] fresh(tx.Outputs) || (arr(tx.Outputs) == old(arr(tx.Outputs)) && old(cap(tx.Outputs)) > old(len(tx.Outputs)))
 //@   ensures [new] tx.Outputs[old(len(tx.Outputs))] != nil && fresh(tx.Outputs[old(len(tx.Outputs))]) && allocated(tx.Outputs[old(len(tx.Outputs))]) &&
 //@       val(tx.Outputs[old(len(tx.Outputs))].Amount) == val(amount) && tx.Outputs[old(len(tx.Outputs))].Type == ot
+//@   -- [new-at]: the same facts keyed on ANY index term equal to the old length (a client's quantified goal about tx.Outputs[k] instantiates it
+//@   -- with its own k; no congruence step between index terms is needed)
+//@   ensures [new-at] forall k int :: {tx.Outputs[k]} k == old(len(tx.Outputs)) ==> tx.Outputs[k] != nil && fresh(tx.Outputs[k]) && allocated(tx.Outputs[k]) &&
+//@       val(tx.Outputs[k].Amount) == val(amount) && tx.Outputs[k].Type == ot
 //@   loop 0 invariant out != nil && fresh(out) && fresh(out.Keys) && val(out.Amount) == val(amount) && out.Type == ot && crypto.CanonicalScalarKey(r)
 //@   loop 0 invariant len(tx.Outputs) == old(len(tx.Outputs)) && tx.Outputs == old(tx.Outputs)
